@@ -400,6 +400,46 @@ theorem C17_supports_fallback (allowNone : Bool) (mode : Nat) (hm : mode = 1 ∨
     (∀ v : VOut α, stored true v = .value ∧ shadow false v = v) := by
   rcases hm with rfl | rfl <;> simp [validateAdapt, stored, shadow]
 
+/-! ## re-assignment: the shadow attribute follows what `adapt` answers now -/
+
+/-- One assignment to a trait that already holds a value (or none yet).
+`AdaptsTo` keeps the original under `name`, `Supports` the validated value.  Whenever
+the validated value is not the very object stored so far — in particular whenever
+`adapt` built an adapter, a new object — `post_setattr` runs: `AdaptsTo`'s `name_`
+holds exactly what the validator returned *now* (not what it returned for an earlier
+assignment of the same object), `Supports`'s `name_` the original. -/
+theorem C17_shadow_tracks_adapt {β : Type} (same : β → β → Bool) (old : Option (Slots β))
+    (dflt original validated : β) :
+    (assignSlots true false same old dflt original validated).stored = original ∧
+    (assignSlots false true same old dflt original validated).stored = validated ∧
+    (∀ s, old = some s → same s.stored validated = false →
+      (assignSlots true false same old dflt original validated).shadow = some validated ∧
+      (assignSlots false true same old dflt original validated).shadow = some original) ∧
+    (old = none → same dflt validated = false →
+      (assignSlots true false same old dflt original validated).shadow = some validated ∧
+      (assignSlots false true same old dflt original validated).shadow = some original) := by
+  refine ⟨rfl, rfl, ?_, ?_⟩
+  · intro s hs hne; subst hs; simp [assignSlots, hne]
+  · intro hs hne; subst hs; simp [assignSlots, hne]
+
+/-- Full strength: after *every* assignment `AdaptsTo`'s shadow is what the validator
+returned now.  False (finding F81): when `adapt` now answers with the assigned object
+itself and that object is what `name` already holds, the assignment counts as
+unchanged and the shadow keeps the adapter of the earlier assignment. -/
+def C17_shadow_full : Prop :=
+  ∀ (old : Option (Slots Nat)) (dflt original validated : Nat),
+    (assignSlots true false (fun a b => a == b) old dflt original validated).shadow = some validated
+
+theorem C17_shadow_fails_at : ¬ C17_shadow_full := by
+  intro h
+  -- object 0 assigned before (shadow: adapter 7); adapt now returns object 0 itself
+  have := h (some ⟨0, some 7⟩) 99 0 0
+  simp [assignSlots] at this
+
+-- the seeded-change scenario: object 0 re-assigned, adapt now builds adapter 8 instead of 7
+example : (assignSlots true false (fun a b : Nat => a == b) (some ⟨0, some 7⟩) 99 0 8).shadow = some 8 := by
+  decide
+
 /-! ## the model's two CPython pieces and termination -/
 
 /-- `_adapt` as modelled never runs out of fuel: the `while` loop terminates (every
